@@ -195,6 +195,10 @@ def run_loop(ex, node, kind):
         lst = aux['list']
         P.assume(z3.And(i >= 0))
         ln = P.read_field(lst, 'len').e
+        if z3.is_expr(ln) and z3.is_expr(aux['len0']) and ln.eq(aux['len0']):
+            # the loop does not change the length of the list it walks (its
+            # havoc left the term alone): 0 <= i <= len is inductive
+            P.assume(i <= ln)
         go = P.decide(i < ln)
         if go:
             items = P.read_field(lst, 'items')
